@@ -87,6 +87,9 @@ type Policy struct {
 	PAdvance float64 // probability of jumping the clock to the next timer although tasks are eligible
 	PctD     int     // number of priority change points (pct)
 	Horizon  int64   // step horizon within which pct change points are placed
+	// AtomicYield n > 0: about every n-th atomic operation of the code under
+	// test is a scheduling point before, and another one after, the operation
+	AtomicYield int
 }
 
 // Config for one run.
@@ -129,6 +132,7 @@ type timerEnt struct {
 type Sched struct {
 	cfg        Config
 	rng        rng
+	arng       uint64 // sampling of scheduling points at atomic operations
 	tasks      []*Task
 	cur        *Task
 	now        int64
@@ -741,6 +745,60 @@ func Yield(site int) {
 	sched.yield(site)
 }
 
+// AtomTok orders the evaluation of AtomicPre before the atomic operation.
+type AtomTok struct{}
+
+// AtomicPre is a (sampled) scheduling point before an atomic operation.
+//
+//go:norace
+func AtomicPre(site int) AtomTok {
+	if active {
+		sched.atomicYield(site)
+	}
+	return AtomTok{}
+}
+
+// A passes the result of an atomic operation through, after a (sampled)
+// scheduling point behind it.
+//
+//go:norace
+func A[T any](_ AtomTok, v T) T {
+	if active {
+		sched.atomicYield(siteAtomicPost)
+	}
+	return v
+}
+
+// AtomicPost is the scheduling point behind an atomic store.
+//
+//go:norace
+func AtomicPost() {
+	if active {
+		sched.atomicYield(siteAtomicPost)
+	}
+}
+
+const siteAtomicPost = -41
+
+//go:norace
+func (s *Sched) atomicYield(site int) {
+	n := s.cfg.Policy.AtomicYield
+	if n <= 0 {
+		return
+	}
+	// own xorshift stream: these draws are far too many for the decision log
+	// and are a pure function of the seed and the execution so far
+	x := s.arng
+	x ^= x << 13
+	x ^= x >> 7
+	x ^= x << 17
+	s.arng = x
+	if x%uint64(n) != 0 {
+		return
+	}
+	s.yield(site)
+}
+
 // Cur returns the running task (nil outside a simulation).
 //
 //go:norace
@@ -877,7 +935,7 @@ func Run(cfg Config, root func()) *Result {
 	if cfg.MaxSteps <= 0 {
 		cfg.MaxSteps = 200000
 	}
-	s := &Sched{cfg: cfg, hash: 14695981039346656037, ihash: 14695981039346656037}
+	s := &Sched{cfg: cfg, hash: 14695981039346656037, ihash: 14695981039346656037, arng: cfg.Seed | 1}
 	s.rng.seed(cfg.Seed)
 	s.ctl = newBaton()
 	s.now = 1_700_000_000_000_000_000
